@@ -135,13 +135,18 @@ let () =
            let ((wm, wc), cc) = c03_weights fops (nat_of_int dc) alpha beta kappa in
            out_flist "wm" wm; out_flist "wc" wc; Caseio.out_num "c" (fl cc);
            Caseio.out_int "dof" dc;
-           let sp = c03_sigma fops sq_oracle eg_oracle l aug cc cs in
+           let nms = if Caseio.has c "noise_means" then
+                       (let nm = Caseio.get_mat c "noise_means" in
+                        List.init (mat_cols nm) (fun i -> lmx_of_mat (mat_col nm i)))
+                     else [] in
+           let sp = c03_sigma fops sq_oracle eg_oracle l aug nms cc cs in
            Caseio.out_mat_shape "sp" d (List.length sp) (hcat_cols d sp);
            let fail = Caseio.get_int c "fail" <> 0 in
            let f = if fail then None else Some (lmx_of_mat (Caseio.get_mat c "A"), lmx_of_mat (Caseio.get_mat c "b")) in
            let overload = Caseio.get_int c "overload" in
            let nmat = lmx_of_mat (Caseio.get_mat c "N") in
-           (match c03_ut fops sq_oracle eg_oracle l lout aug (nat_of_int dc) alpha beta kappa cs f (nat_of_int overload) nmat with
+           let quad = if Caseio.has c "G" then Some (lmx_of_mat (Caseio.get_mat c "G"), lmx_of_mat (Caseio.get_mat c "g")) else None in
+           (match c03_ut fops sq_oracle eg_oracle l lout aug nms (nat_of_int dc) alpha beta kappa cs f quad (nat_of_int overload) nmat with
             | None -> Caseio.out_int "valid" 0
             | Some (res, ws) ->
                 Caseio.out_int "valid" 1;
